@@ -244,10 +244,12 @@ impl ConcreteReadableShape for Multipatch {
         if (record_size != record_size_with_m) & (record_size != record_size_without_m) {
             Err(Error::InvalidShapeRecordSize)
         } else {
-            let mut patch_types = vec![PatchType::Ring; reader.num_parts as usize];
-            let mut patches = Vec::<Patch>::with_capacity(reader.num_parts as usize);
-            for i in 0..reader.num_parts {
-                patch_types[i as usize] = PatchType::read_from(reader.source)?;
+            let num_parts = reader.num_parts as usize;
+            let mut patch_types =
+                Vec::<PatchType>::with_capacity(bounded_capacity::<PatchType>(num_parts));
+            let mut patches = Vec::<Patch>::with_capacity(bounded_capacity::<Patch>(num_parts));
+            for _ in 0..num_parts {
+                patch_types.push(PatchType::read_from(reader.source)?);
             }
             let (bbox, patches_points) = reader
                 .read_xy()
